@@ -30,7 +30,7 @@ PiSetsD(D(_), IsRec(_), alts, c, maxd) ==
 \* (fallback = "closest"); fallback = "any" is the rule before the repair (any alternative, by grammar weight).
 PtFactor(D(_), IsRec(_), a, c, target) == IF IsRec(a) THEN target \div (c + 1) ELSE target - D(a)
 PtSetD(D(_), IsRec(_), W(_), alts, c, target, fallback) ==
-    LET pos     == {a \in alts : PtFactor(D, IsRec, a, c, target) * W(a) > 0}
+    LET pos     == {a \in alts : PtFactor(D, IsRec, a, c, target) > 0 /\ W(a) > 0}     \* the product is positive (weights are >= 0)
         usable  == IF {a \in alts : W(a) > 0} # {} THEN {a \in alts : W(a) > 0} ELSE alts
         closest == {a \in usable : \A b \in usable : D(a) <= D(b)}
     IN IF pos # {} THEN pos ELSE IF fallback = "closest" THEN closest ELSE usable
